@@ -953,6 +953,14 @@ def gen_scenarios(tier, seed, alpha, log):
             if 30 <= len(tr) <= (140 if tier == 'quick' else 400) and any(c['verb'] in STORE for c in script):
                 break
         scen += tr
+    # command lines longer than any reader buffer (4 KB and more): multi-gets of many maximal-length keys, a live key among
+    # them and a command pipelined behind them (a complete, well-formed command, however long, gets its one reply)
+    for i in range(4 if tier == 'quick' else 40):
+        many = [kr('plain', 'kl%d' % j) for j in range(rng.randint(18, 40))]
+        many.insert(rng.randrange(len(many) + 1), kr('plain', 'kh'))
+        add([base_cmd('set', keys=[kr('plain', 'kh')], size='small'),
+             base_cmd(rng.choice(['get', 'gets']), keys=many),
+             base_cmd('get', keys=[kr('plain', 'kh')])], mode=rng.choice(['pipe', 'pipe', 'tcp', 'byte']))
     n[0] += 1
     scen.append(roundtrip_scenario('p%05d' % n[0], random.Random(seed + 99)))
     n[0] += 1
